@@ -2,6 +2,7 @@ import HpxVerif.Lemmas.BmocAnd
 import HpxVerif.Lemmas.BmocEnc
 import HpxVerif.Lemmas.CoverWF
 import HpxVerif.Lemmas.BmocNot
+import HpxVerif.Lemmas.BmocViews
 
 /-!
 # C09 — every BMOC handed to the user is well formed and its views agree
@@ -13,9 +14,12 @@ raw values fit in 64 bits), `and` preserves well-formedness, **`pack` preserves 
 (`packed_bmoc_wf`), and **the cone coverage started from the 12 base cells returns a well-formed BMOC whatever the
 floating-point tests answer** (`cone_coverage_base_start_wf`; with a starting depth the same holds provided the start
 cells returned by `neighbours` are distinct — C04 — by `rootsFold`), and **`BMOC::not` of a well-formed BMOC is a
-well-formed BMOC** (`bmoc_not_wf`).  Open statements (validated by correspondence and the
-direct well-formedness oracle on every BMOC the runs produce): `or_wf`, `xor_wf`, `flat_iter_spec`,
-`to_ranges_spec`, `deep_size_eq_length`.
+well-formed BMOC** (`bmoc_not_wf`).  **The views of a well-formed BMOC agree** (for every BMOC with valid entries, `depth_max ≤ 29`):
+`flat_iter_spec` (strictly increasing, exactly the non-absent deepest-level cells), `flat_iter_cell_spec` (same cells,
+each with the raw entry that covers it and that entry's flag), `deep_size_eq_length`, `to_ranges_spec` (non-empty
+ranges, sorted, pairwise disjoint **and non-adjacent**, union = flat set), `into_iter_decodes`, `views_in_range`.
+Open statements (validated by correspondence and the direct well-formedness oracle on every BMOC the runs
+produce): `or_wf`, `xor_wf` (see C08).
 -/
 
 namespace Hpx.C09
@@ -148,5 +152,45 @@ theorem bmoc_not_wf (b : BMOC) (hdm : b.dmax ≤ 29) (hv : ∀ r ∈ b.entries, 
     exact ⟨c, w1.depth_le c hc, r1 c hc, rfl⟩
   · rw [hent]
     exact wf_entries_increasing b.dmax _ w1
+
+/-! ## views (`flat_iter`, `flat_iter_cell`, `deep_size`, `to_ranges`, `into_iter`) -/
+
+/-- `flat_iter` / `to_flat_array`: strictly increasing, and exactly the deepest-level cells that are not absent -/
+theorem flat_iter_spec (b : BMOC) (hD : b.dmax ≤ 29) (hv : ∀ r ∈ b.entries, ValidRaw b.dmax r) (hw : WF b.dmax b.cells) :
+    (flatIter b).Pairwise (· < ·) ∧ ∀ x, x ∈ flatIter b ↔ stOf b.dmax b.cells x ≠ .abs :=
+  flatIter_spec b hD hv hw
+
+/-- `flat_iter_cell`: the same cells as `flat_iter`, each reported with the raw entry covering it and the flag of
+    that entry, which is the state of the cell -/
+theorem flat_iter_cell_spec (b : BMOC) (hD : b.dmax ≤ 29) (hv : ∀ r ∈ b.entries, ValidRaw b.dmax r)
+    (hw : WF b.dmax b.cells) :
+    (flatIterCell b).map (·.2.1) = flatIter b ∧
+    ∀ raw x f, (raw, x, f) ∈ flatIterCell b →
+      raw ∈ b.entries ∧ f = (decode raw b.dmax).full ∧
+      lo b.dmax (decode raw b.dmax) ≤ x ∧ x < hi b.dmax (decode raw b.dmax) ∧
+      stOf b.dmax b.cells x = Tri.ofFlag f :=
+  flatIterCell_spec b hD hv hw
+
+theorem deep_size_eq_length (b : BMOC) (hD : b.dmax ≤ 29) (hv : ∀ r ∈ b.entries, ValidRaw b.dmax r) :
+    deepSize b = (flatIter b).length := deepSize_eq_length b hD hv
+
+/-- `to_ranges`: non-empty ranges, sorted, pairwise disjoint and non-adjacent, whose union is the flat set -/
+theorem to_ranges_spec (b : BMOC) (hD : b.dmax ≤ 29) (hv : ∀ r ∈ b.entries, ValidRaw b.dmax r) (hw : WF b.dmax b.cells) :
+    (∀ p ∈ toRanges b, p.1 < p.2) ∧
+    (toRanges b).Pairwise (fun p q => p.2 < q.1) ∧
+    (∀ x, (∃ p ∈ toRanges b, p.1 ≤ x ∧ x < p.2) ↔ x ∈ flatIter b) ∧
+    (∀ x, (∃ p ∈ toRanges b, p.1 ≤ x ∧ x < p.2) ↔ stOf b.dmax b.cells x ≠ .abs) :=
+  toRanges_spec b hD hv hw
+
+/-- `into_iter`: decoding the entries gives cells of depth `≤ depth_max` with in-range numbers, and re-encoding them
+    gives the entries back -/
+theorem into_iter_decodes (b : BMOC) (hD : b.dmax ≤ 29) (hv : ∀ r ∈ b.entries, ValidRaw b.dmax r) :
+    (∀ c ∈ b.cells, c.depth ≤ b.dmax ∧ c.hash < 12 * 4 ^ c.depth) ∧ b.cells.map (encode b.dmax) = b.entries :=
+  into_iter b hD hv
+
+/-- every number the views produce is a cell number of depth `depth_max` (no `u64` overflow in the shifts) -/
+theorem views_in_range (b : BMOC) (hD : b.dmax ≤ 29) (hv : ∀ r ∈ b.entries, ValidRaw b.dmax r) :
+    (∀ x ∈ flatIter b, x < 12 * 4 ^ b.dmax) ∧ (∀ p ∈ toRanges b, p.2 ≤ 12 * 4 ^ b.dmax) :=
+  views_bound b hD hv
 
 end Hpx.C09
